@@ -56,12 +56,157 @@ def battery(rng, quick):
         r = rng.fork("long%d" % k)
         ops, _ = histrun.gen_history(r, 150 if quick else 600, start_lp=None, weights=histrun.GROW)
         out.append(("long-edit", histrun.with_dumps("create 0 min", ops) + ["solve 0 primal", "sol 0"]))
+    # add-heavy histories on a dense problem with solves and factor-invalidating edits in between: the column storage is
+    # reallocated while a basis with row norms is alive
+    for k in range(6 if quick else 80):
+        r = rng.fork("dense%d" % k)
+        m, n = r.rint(8, 14), r.rint(16, 30)
+        lp = gen.random_lp(r, m=m, n=n, dens=0.9, shapes=["default", "box"], senses="LLG")
+        lines = ["new 0 " + lp.line(), "setparam 0 2 7"]
+        nr = m
+        for step in range(r.rint(12, 30)):
+            w = r.wchoice([("addrow", 6), ("solve", 3), ("chgcoef", 2), ("chgsense", 1), ("delrow", 1), ("norms", 1)])
+            if w == "addrow":
+                cols = [j for j in range(n) if r.chance(0.8)] or [0]
+                lines.append("addrow 0 - %s %s %d %s" % (r.choice("LG"), q2s(F(r.rint(-20, 40))), len(cols), " ".join("%d %s" % (j, q2s(F(r.rint(1, 5)))) for j in cols)))
+                nr += 1
+            elif w == "solve":
+                e = r.choice(["dual", "dual", "primal"])
+                lines += ["solve 0 " + e, "sol 0"]
+                if e == "dual" and r.chance(0.6):
+                    # basis with row norms alive, factorization invalidated, then rows that make the column store move
+                    lines.append("chgcoef 0 %d %d %s" % (r.below(nr), r.below(n), q2s(F(r.rint(2, 7)))))
+                    for _ in range(2):
+                        cols = [j for j in range(n) if r.chance(0.9)] or [0]
+                        lines.append("addrow 0 - L %s %d %s" % (q2s(F(r.rint(50, 90))), len(cols), " ".join("%d %s" % (j, q2s(F(r.rint(1, 5)))) for j in cols)))
+                        nr += 1
+            elif w == "chgcoef":
+                lines.append("chgcoef 0 %d %d %s" % (r.below(nr), r.below(n), q2s(F(r.rint(1, 6)))))
+            elif w == "chgsense":
+                lines.append("chgsense 0 %d %s" % (r.below(nr), r.choice("LG")))
+            elif w == "delrow" and nr > 2:
+                lines.append("delrow 0 %d" % r.below(nr))
+                nr -= 1
+            elif w == "norms":
+                lines += ["getbasis 0"]
+        lines += ["solve 0 dual", "sol 0", "solve 0 exact primal none"]
+        out.append(("dense-resolve", lines))
+    # the same pattern repeated until the store has certainly been reallocated several times
+    for k in range(2 if quick else 60):
+        r = rng.fork("normsrealloc%d" % k)
+        m, n = r.rint(8, 12), r.rint(16, 24)
+        lp = gen.random_lp(r, m=m, n=n, dens=0.9, shapes=["default", "box"], senses="LLG")
+        lines = ["new 0 " + lp.line(), "setparam 0 2 7"]
+        for rnd in range(6):
+            lines += ["solve 0 dual", r.choice(["chgcoef 0 0 0 %d" % (rnd + 2), "chgsense 0 0 L", "chgcoef 0 1 1 %d" % (rnd + 3)])]
+            for _ in range(2):
+                cols = [j for j in range(n) if r.chance(0.9)] or [0]
+                lines.append("addrow 0 - L %s %d %s" % (q2s(F(r.rint(50, 90))), len(cols), " ".join("%d %s" % (j, q2s(F(r.rint(1, 5)))) for j in cols)))
+        lines += ["solve 0 dual", "sol 0"]
+        out.append(("norms-realloc", lines))
     # malformed input files through the readers
     for k in range(20 if quick else 500):
         r = rng.fork("file%d" % k)
         lp, cn, rn = p_files.named_problem(r)
         base = p_files.build_lines(0, lp, cn, rn)
         out.append(("file", base + ["write 0 LP " + "m.lp".encode().hex(), "write 0 MPS " + "m.mps".encode().hex(), "mutate"]))
+    return out
+
+
+def _raw(block):
+    d = dict(t.split("=") for t in proto.get(block, "raw"))
+    g = lambda k: [int(v) for v in (proto.get(block, k) or ["0"])[1:]]
+    return {k: int(v) for k, v in d.items()}, g("structmap"), g("matbeg"), g("matcnt"), g("matind")
+
+
+def boundary_histories(exe, rng, count, ev):
+    """edit histories steered (by looking at the raw column store after each step) to the points where the free-space
+    tests of the coefficient store decide: an added row whose space demand `delta` is exactly / one off the free space,
+    a column of exactly / one off the free length, a new coefficient in a column with no room"""
+    import itertools
+    out = []
+    for k in range(count):
+        r = rng.fork("b%d" % k)
+        m, n = r.rint(3, 6), r.rint(6, 11)
+        lp = gen.random_lp(r, m=m, n=n, dens=0.7, shapes=["default", "box"], senses="LG")
+        lines = ["new 0 " + lp.line()]
+        hit = 0
+        for step in range(70):
+            if hit >= 5:
+                break
+            t = proto.run_harness(exe, lines + ["dumpraw 0"], timeout=120)
+            if t.crashed:
+                break
+            raw, smap, beg, cnt, ind = _raw(t[-1][1])
+            used = raw["matsize"] - raw["matfree"]
+            free = raw["matfree"]
+            nst, nrw = raw["nstruct"], raw["nrows"]
+            def needs_move(c):
+                e = beg[c] + cnt[c]
+                return cnt[c] > 0 and (e + 1 > raw["matsize"] or (e < used and ind[e] != -1))
+            w = {j: cnt[smap[j]] + 2 for j in range(nst) if needs_move(smap[j])}
+            other = [j for j in range(nst) if j not in w]
+            done = False
+            if w and free <= sum(w.values()) + 1:
+                mode = r.choice(["row", "row", "row", "coef"])
+                if mode == "row":
+                    for d in r.shuffle([0, 0, -1, 1]):
+                        target = free + d
+                        sums = {0: []}
+                        for j, wj in sorted(w.items()):
+                            for sm, sub in list(sums.items()):
+                                if sm + wj <= target and sm + wj not in sums:
+                                    sums[sm + wj] = sub + [j]
+                        if target in sums and sums[target]:
+                            cols = sums[target]
+                            endcol = [j for j in range(nst) if beg[smap[j]] + cnt[smap[j]] == used and cnt[smap[j]] > 0 and j not in cols and j not in w]
+                            cols = endcol[:1] + cols + [j for j in other if j not in endcol and r.chance(0.3)]
+                            lines.append("addrow 0 - L %s %d %s" % (q2s(F(r.rint(5, 50))), len(cols), " ".join("%d %s" % (j, q2s(F(r.rint(1, 4)))) for j in cols)))
+                            hit += 1
+                            done = True
+                            ev.stat("boundary:addrow delta-free=%+d" % (-d))
+                            break
+                else:
+                    cand = [(j, i) for j in sorted(w) for i in range(nrw) if i not in set(ind[beg[smap[j]]: beg[smap[j]] + cnt[smap[j]]]) and abs(w[j] - free) <= 1]
+                    if cand:
+                        j, i = r.choice(cand)
+                        lines.append("chgcoef 0 %d %d %s" % (i, j, q2s(F(r.rint(1, 4)))))
+                        hit += 1
+                        done = True
+                        ev.stat("boundary:addcoef delta-free=%+d" % (w[j] - free))
+            if not done and w and free <= sum(w.values()) + 1 and free > 1:
+                # no subset of the columns demands exactly the free space: burn free space with a filler column
+                # (an empty column takes one slot, a column with c entries takes c) down to a demand that can be met
+                sums = {0}
+                for wj in w.values():
+                    sums |= {sm + wj for sm in sums}
+                below = [sm for sm in sums if 0 < sm < free]
+                if below:
+                    burn = free - max(below)
+                    cnt_new = min(burn, nrw)
+                    rows = r.shuffle(list(range(nrw)))[:cnt_new]
+                    if cnt_new >= 1 or burn == 1:
+                        lines.append("addcol 0 - 0 0 inf %d %s" % (len(rows), " ".join("%d %s" % (i, q2s(F(r.rint(1, 4)))) for i in rows)) if rows else "addcol 0 - 0 0 inf 0")
+                        done = "filler"
+            if not done and nrw and free <= nrw + 1 and r.chance(0.5):
+                want = r.choice([free, free - 1, max(0, free - 2)])
+                if 0 <= want <= nrw:
+                    rows = r.shuffle(list(range(nrw)))[:want]
+                    lines.append("addcol 0 - 1 0 inf %d %s" % (len(rows), " ".join("%d %s" % (i, q2s(F(r.rint(1, 4)))) for i in rows)))
+                    hit += 1
+                    done = True
+                    ev.stat("boundary:addcol len-free=%+d" % (want - free))
+            if done == "filler":
+                continue
+            if not done:
+                # consume free space: a (nearly) dense row moves the columns to the end of the store
+                cols = [j for j in range(nst) if r.chance(0.85)] or [0]
+                lines.append("addrow 0 - G %s %d %s" % (q2s(F(-r.rint(1, 50))), len(cols), " ".join("%d %s" % (j, q2s(F(r.rint(1, 4)))) for j in cols)))
+            else:
+                lines += ["dumpapi 0", "getcoef 0 %d %d" % (r.below(max(1, nrw)), r.below(max(1, nst)))]
+        ev.stat("boundary-ops-placed", hit)
+        lines += ["dumpapi 0", "solve 0 primal", "sol 0"]
+        out.append(("boundary", lines))
     return out
 
 
@@ -161,6 +306,21 @@ def run(pid, tier, seed):
 
     # ------------------------------------------------------------ sanitizers, memcheck, reproducibility
     bat = battery(rng.fork("battery"), quick)
+    # problems with integrality marks (only obtainable through files), copied, columns added to the copy and to the original
+    for k in range(10 if quick else 150):
+        r = rng.fork("intb%d" % k)
+        got = p_c16.int_problem_lines(r, exe)
+        if not got:
+            continue
+        pre, nc, nr = got
+        lines = pre + ["dumpapi 0", "copy 0 1"]
+        for tgt in (1, 0, 1):
+            for _ in range(r.rint(1, 4)):
+                lines.append("newcol %d - %s 0 inf" % (tgt, q2s(F(r.rint(-3, 3)))))
+            lines += ["dumpapi 0", "dumpapi 1", "write %d LP %s" % (tgt, ("i%d.lp" % tgt).encode().hex()), "getfile " + ("i%d.lp" % tgt).encode().hex()]
+        lines += ["delcol 1 0", "newcol 1 - 1 0 inf", "dumpapi 1"]
+        bat.append(("int-marks", lines))
+    bat += boundary_histories(exe, rng.fork("boundary"), 14 if quick else 120, ev)
     base = "/var/tmp/qsx-c17-%d-%s" % (os.getpid(), seed)
     shutil.rmtree(base, ignore_errors=True)
     os.makedirs(base)
@@ -221,7 +381,7 @@ def run(pid, tier, seed):
                 os.chmod(wrapper, 0o755)
                 outs.append(proto.run_harness(wrapper, lines, timeout=900, cwd=d3, env_extra={"MALLOC_PERTURB_": "3"}))
             res["plain"] = outs
-            if vg and (i % (12 if quick else 5) == 0) and (kind != "long-edit" or not quick):
+            if vg and (i % (12 if quick else 5) == 0) and (kind not in ("long-edit", "norms-realloc", "dense-resolve", "boundary") or not quick):
                 d4 = d + "_vg"
                 os.makedirs(d4)
                 wrapper = os.path.join(d4, "run.sh")
